@@ -34,6 +34,53 @@ def recread (args : List String) : String :=
     | _, _, _, _, _, _ => "bad-op"
   | _ => "bad-op"
 
+/-- `recwrites <startseq> <suite> <mac> <key> <iv> <rand> <w1,w2,…>` : the writer's sequence number starts at `startseq` -/
+def recwrites (args : List String) : String :=
+  match args with
+  | [sq, s, mac, key, iv, rnd, ws] =>
+    match ofHex sq, parseSuite s, ofHex mac, ofHex key, ofHex iv, ofHex rnd, (ws.splitOn ",").mapM ofHex with
+    | some sq, some s, some mac, some key, some iv, some rnd, some ws =>
+      let w0 : Writer := ⟨⟨s, ⟨mac, key, iv⟩, os2ip sq⟩, 0, 0, rnd⟩
+      let (recs, _) := ws.foldl (fun (acc : List Bytes × Writer) w =>
+        let (r, w') := acc.2.write w; (acc.1 ++ r, w')) ([], w0)
+      ",".intercalate (recs.map hx)
+    | _, _, _, _, _, _, _ => "bad-op"
+  | _ => "bad-op"
+
+/-- number of records `readAll` accepted (each advances the sequence number by one): re-run of the model's
+    loop that only counts; used to print the receiver's sequence number afterwards -/
+def acceptedCount : Nat → Half → Nat → Bytes → Nat
+  | 0, _, _, _ => 0
+  | fuel+1, h, warn, wire =>
+    if wire.length < 5 then 0 else
+    let typ := wire.getD 0 0
+    let vers := (wire.getD 1 0).toNat * 256 + (wire.getD 2 0).toNat
+    let n := (wire.getD 3 0).toNat * 256 + (wire.getD 4 0).toNat
+    if vers ≠ 0x0101 ∨ n > 16384 + 2048 ∨ wire.length < 5 + n then 0 else
+    match h.decrypt typ ((wire.drop 5).take n) with
+    | (none, _) => 0
+    | (some data, h') =>
+      -- the record passed decryption: the counter has advanced, whatever happens to its content next
+      if data.length > 16384 then 1
+      else if typ = 23 then 1 + acceptedCount fuel h' (if data.length > 0 then 0 else warn) (wire.drop (5 + n))
+      else if typ = 21 ∧ data.length = 2 ∧ data.getD 1 0 ≠ 0 ∧ data.getD 0 0 = 1 ∧ warn + 1 ≤ 5 then
+        1 + acceptedCount fuel h' (warn + 1) (wire.drop (5 + n))
+      else 1
+
+/-- `recreads <startseq> <suite> <mac> <key> <iv> <wire> <sent>` -/
+def recreads (args : List String) : String :=
+  match args with
+  | [sq, s, mac, key, iv, wire, sent] =>
+    match ofHex sq, parseSuite s, ofHex mac, ofHex key, ofHex iv, ofHex wire, ofHex sent with
+    | some sq, some s, some mac, some key, some iv, some wire, some sent =>
+      let h0 : Half := ⟨s, ⟨mac, key, iv⟩, os2ip sq⟩
+      let (got, st) := readAll (wire.length + 1) h0 0 wire
+      let pre := got.isPrefixOf sent
+      let fin := os2ip sq + acceptedCount (wire.length + 1) h0 0 wire
+      hx got ++ " " ++ statusStr st ++ (if pre then " 1 " else " 0 ") ++ hx (seqBytes fin)
+    | _, _, _, _, _, _, _ => "bad-op"
+  | _ => "bad-op"
+
 /-- `expad <payload>` : (toRemove, good) as the Go function reports them -/
 def expad (args : List String) : String :=
   match args.mapM ofHex with
